@@ -116,7 +116,43 @@ ALLOWED_AXIOMS = set()   # every property theorem is expected to be closed under
 
 
 @_locked
-def prepare(prop, need_model=True, need_harness=True, profiles=('release',)):
+def coqchk_closure(prop, info, budget_s=3 * 3600):
+    """thorough tier: re-check Props/<prop>.vo and everything it depends on with the independent checker coqchk
+    and read the axioms it reports. A .vo records the digests of the libraries it requires, so the hash of the
+    property's .vo pins its whole closure and is the cache key (coqchk re-runs every vm_compute sweep with its
+    own lazy machine: seconds for most properties, up to an hour for those resting on the 2^16 table sweeps)."""
+    import hashlib
+    vo = os.path.join(COQ, 'Props', prop + '.vo')
+    key = hashlib.sha256(open(vo, 'rb').read()).hexdigest()
+    cache = os.path.join(BUILD, 'coqchk_%s.json' % prop)
+    if os.path.exists(cache):
+        c = json.load(open(cache))
+        if c.get('key') == key:
+            info['coqchk'] = dict(c, cached=True)
+            return
+    t0 = time.time()
+    try:
+        rc, out = sh(['coqchk', '-o', '-silent', '-Q', 'Gen', 'RS.Gen', '-Q', 'Model', 'RS.Model', '-Q', 'Proofs', 'RS.Proofs',
+                      '-Q', 'Props', 'RS.Props', 'RS.Props.' + prop], cwd=COQ, timeout=budget_s)
+    except subprocess.TimeoutExpired:
+        info['coqchk'] = {'result': 'not completed within %d s (not counted either way)' % budget_s}
+        return
+    m = re.search(r'\* Axioms:(.*?)\n\s*\n\* Constants/Inductives relying on type-in-type:(.*?)\n\s*\n\* Constants/Inductives relying on unsafe \(co\)fixpoints:(.*?)\n\s*\n\* Inductives whose positivity is assumed:(.*?)\n', out + '\n\n', flags=re.S)
+    fields = [x.strip() for x in m.groups()] if m else None
+    res = {'key': key, 'rc': rc, 'wall_s': round(time.time() - t0, 1), 'axioms': fields[0] if fields else None,
+           'type_in_type': fields[1] if fields else None, 'unsafe_fix': fields[2] if fields else None,
+           'assumed_positive': fields[3] if fields else None}
+    if rc != 0 or not fields:
+        raise Obligation('coqchk rejects the compiled closure of Props/%s.vo' % prop, out[-3000:])
+    if any(f != '<none>' for f in fields):
+        raise Obligation('coqchk reports axioms or unchecked definitions under Props/%s.vo' % prop, out[-3000:])
+    res['result'] = 'accepted; Axioms: <none>'
+    with open(cache, 'w') as f:
+        json.dump(res, f)
+    info['coqchk'] = res
+
+
+def prepare(prop, need_model=True, need_harness=True, profiles=('release',), tier='quick'):
     """Regenerate Gen/*.v from /repo, rebuild the Coq target of the property, the
     extracted model and the harness. Returns dict with proof info; raises Obligation."""
     info = {'rs2v': None, 'coq_s': 0.0, 'theorems': [], 'assumptions': {}}
@@ -165,6 +201,8 @@ def prepare(prop, need_model=True, need_harness=True, profiles=('release',)):
         raise Obligation('a property theorem depends on axioms', '\n'.join(axioms))
     if info['closed'] < info['n_print_assumptions']:
         raise Obligation('Print Assumptions output incomplete', pa[-2000:])
+    if tier == 'thorough':
+        coqchk_closure(prop, info)
     # 3. extraction + driver
     if need_model:
         rc, out = sh(['make', '-j%d' % NPROC, 'Extract/Extract.vo'], cwd=COQ, timeout=3000)
@@ -447,6 +485,8 @@ def finish(v, level, rule, trusted, assumptions, explanation=None):
         cov['trusted_base'] = trusted
         cov['print_assumptions_closed'] = v.proof.get('closed', 0)
         cov['prepare_s'] = round(v.proof.get('prepare_s', 0), 1)
+        if v.proof.get('coqchk'):
+            cov['coqchk'] = v.proof['coqchk']
     if explanation:
         cov['explanation'] = explanation
     cov.update(v.extra)
